@@ -30,23 +30,23 @@
 
 #[cfg(kani)]
 #[allow(dead_code)]
-mod verif_c01_pool {
+pub(in crate::structures::paging::mapper) mod verif_c01_pool {
     use super::*;
 
     // ---- architecture constants, written from the SDM, not taken from the crate
-    pub(super) const P: u64 = 1; // present
-    pub(super) const RW: u64 = 1 << 1; // writable
-    pub(super) const US: u64 = 1 << 2; // user
-    pub(super) const PS: u64 = 1 << 7; // page size (huge) at PDPTE / PDE; PAT at PTE
-    pub(super) const PAT_HUGE: u64 = 1 << 12; // PAT at PDPTE / PDE that map a page
-    pub(super) const ADDR: u64 = 0x000f_ffff_ffff_f000; // bits 12..51
-    pub(super) const ADDR_2M: u64 = 0x000f_ffff_ffe0_0000; // bits 21..51
-    pub(super) const ADDR_1G: u64 = 0x000f_ffff_c000_0000; // bits 30..51
-    pub(super) const SZ_4K: u64 = 1 << 12;
-    pub(super) const SZ_2M: u64 = 1 << 21;
-    pub(super) const SZ_1G: u64 = 1 << 30;
+    pub(in crate::structures::paging::mapper) const P: u64 = 1; // present
+    pub(in crate::structures::paging::mapper) const RW: u64 = 1 << 1; // writable
+    pub(in crate::structures::paging::mapper) const US: u64 = 1 << 2; // user
+    pub(in crate::structures::paging::mapper) const PS: u64 = 1 << 7; // page size (huge) at PDPTE / PDE; PAT at PTE
+    pub(in crate::structures::paging::mapper) const PAT_HUGE: u64 = 1 << 12; // PAT at PDPTE / PDE that map a page
+    pub(in crate::structures::paging::mapper) const ADDR: u64 = 0x000f_ffff_ffff_f000; // bits 12..51
+    pub(in crate::structures::paging::mapper) const ADDR_2M: u64 = 0x000f_ffff_ffe0_0000; // bits 21..51
+    pub(in crate::structures::paging::mapper) const ADDR_1G: u64 = 0x000f_ffff_c000_0000; // bits 30..51
+    pub(in crate::structures::paging::mapper) const SZ_4K: u64 = 1 << 12;
+    pub(in crate::structures::paging::mapper) const SZ_2M: u64 = 1 << 21;
+    pub(in crate::structures::paging::mapper) const SZ_1G: u64 = 1 << 30;
     /// bits of a leaf word that are flags: everything outside the frame address of that size
-    pub(super) const fn leaf_flag_mask(size: u64) -> u64 {
+    pub(in crate::structures::paging::mapper) const fn leaf_flag_mask(size: u64) -> u64 {
         if size == SZ_4K {
             !ADDR
         } else if size == SZ_2M {
@@ -58,22 +58,22 @@ mod verif_c01_pool {
     /// the flag domain of the properties (C08): bits 0..11 and 52..63. Bit 12 (PAT of a huge-page
     /// entry, an address bit everywhere else) is outside it: flags given to the mapper and huge
     /// leaf words of the pre-state never have it (see the observation in lib/C01_NOTES.md).
-    pub(super) const FLAG_DOMAIN: u64 = 0xfff0_0000_0000_0fff;
+    pub(in crate::structures::paging::mapper) const FLAG_DOMAIN: u64 = 0xfff0_0000_0000_0fff;
 
-    pub(super) const NT: usize = 7;
-    pub(super) const NONE: usize = 7;
+    pub(in crate::structures::paging::mapper) const NT: usize = 7;
+    pub(in crate::structures::paging::mapper) const NONE: usize = 7;
 
-    pub(super) fn entry_from(w: u64) -> PageTableEntry {
+    pub(in crate::structures::paging::mapper) fn entry_from(w: u64) -> PageTableEntry {
         unsafe { core::mem::transmute::<u64, PageTableEntry>(w) }
     }
-    pub(super) fn raw(e: &PageTableEntry) -> u64 {
+    pub(in crate::structures::paging::mapper) fn raw(e: &PageTableEntry) -> u64 {
         unsafe { *(e as *const PageTableEntry as *const u64) }
     }
 
     // ------------------------------------------------------------------ pool
 
     #[derive(Clone, Copy, Debug)]
-    pub(super) struct Pool {
+    pub(in crate::structures::paging::mapper) struct Pool {
         pub f: [u64; NT],
         pub p: [*mut PageTable; NT],
     }
@@ -127,7 +127,7 @@ mod verif_c01_pool {
     }
 
     /// 7 pairwise distinct, 4 KiB-aligned, 52-bit frame addresses.
-    pub(super) fn any_pool_frames() -> [u64; NT] {
+    pub(in crate::structures::paging::mapper) fn any_pool_frames() -> [u64; NT] {
         let f: [u64; NT] = kani::any();
         let mut i = 0;
         while i < NT {
@@ -167,7 +167,7 @@ mod verif_c01_pool {
             ghost_reset(&$pool);
         };
     }
-    pub(super) use mk_pool;
+    pub(in crate::structures::paging::mapper) use mk_pool;
 
     /// Checks every listed clause on its own path. `kani::assert` also ASSUMES its condition
     /// afterwards, so in a plain sequence a failing earlier clause would hide a failing later one
@@ -185,23 +185,23 @@ mod verif_c01_pool {
             let _ = k;
         }};
     }
-    pub(super) use each;
+    pub(in crate::structures::paging::mapper) use each;
 
     // ------------------------------------------------------------------ indices and addresses
 
     #[derive(Clone, Copy)]
-    pub(super) struct Idx(pub [usize; 4]); // [p4, p3, p2, p1]
+    pub(in crate::structures::paging::mapper) struct Idx(pub [usize; 4]); // [p4, p3, p2, p1]
 
     // The four enumerated index tuples. Within a tuple the indices are pairwise distinct (so using
     // the index of one level at another level is visible); across the tuples every level sees its
     // first and its last slot, and P4 sees both sides of the canonical-half boundary (255 | 256).
-    pub(super) const IDX_LO: Idx = Idx([0, 1, 511, 2]); // lower half, first P4 slot
-    pub(super) const IDX_HI: Idx = Idx([511, 510, 1, 0]); // upper half, last P4 slot
-    pub(super) const IDX_MID: Idx = Idx([255, 511, 0, 256]); // last P4 slot of the lower half
-    pub(super) const IDX_UP: Idx = Idx([256, 0, 510, 511]); // first P4 slot of the upper half
+    pub(in crate::structures::paging::mapper) const IDX_LO: Idx = Idx([0, 1, 511, 2]); // lower half, first P4 slot
+    pub(in crate::structures::paging::mapper) const IDX_HI: Idx = Idx([511, 510, 1, 0]); // upper half, last P4 slot
+    pub(in crate::structures::paging::mapper) const IDX_MID: Idx = Idx([255, 511, 0, 256]); // last P4 slot of the lower half
+    pub(in crate::structures::paging::mapper) const IDX_UP: Idx = Idx([256, 0, 510, 511]); // first P4 slot of the upper half
 
     /// One of the four enumerated tuples, chosen by the solver (quick tier).
-    pub(super) fn enumerated_idx() -> Idx {
+    pub(in crate::structures::paging::mapper) fn enumerated_idx() -> Idx {
         let c: u8 = kani::any();
         kani::assume(c < 4);
         match c {
@@ -213,14 +213,14 @@ mod verif_c01_pool {
     }
 
     /// All four indices symbolic (thorough tier).
-    pub(super) fn symbolic_idx() -> Idx {
+    pub(in crate::structures::paging::mapper) fn symbolic_idx() -> Idx {
         let i: [usize; 4] = kani::any();
         kani::assume(i[0] < 512 && i[1] < 512 && i[2] < 512 && i[3] < 512);
         Idx(i)
     }
 
     /// canonical virtual address with these indices and this offset (bit 47 sign-extended)
-    pub(super) fn va_of(ix: &Idx, offset: u64) -> u64 {
+    pub(in crate::structures::paging::mapper) fn va_of(ix: &Idx, offset: u64) -> u64 {
         let low = ((ix.0[0] as u64) << 39) | ((ix.0[1] as u64) << 30) | ((ix.0[2] as u64) << 21) | ((ix.0[3] as u64) << 12) | (offset & 0xfff);
         if low & (1 << 47) != 0 {
             low | 0xffff_0000_0000_0000
@@ -228,29 +228,29 @@ mod verif_c01_pool {
             low
         }
     }
-    pub(super) fn canonical(a: u64) -> bool {
+    pub(in crate::structures::paging::mapper) fn canonical(a: u64) -> bool {
         let top = a >> 47;
         top == 0 || top == 0x1_ffff
     }
-    pub(super) fn any_canonical() -> u64 {
+    pub(in crate::structures::paging::mapper) fn any_canonical() -> u64 {
         let a: u64 = kani::any();
         kani::assume(canonical(a));
         a
     }
-    pub(super) fn idx_of(v: u64) -> Idx {
+    pub(in crate::structures::paging::mapper) fn idx_of(v: u64) -> Idx {
         Idx([((v >> 39) & 511) as usize, ((v >> 30) & 511) as usize, ((v >> 21) & 511) as usize, ((v >> 12) & 511) as usize])
     }
 
     // ------------------------------------------------------------------ the oracle
 
-    pub(super) const NOT_MAPPED: u8 = 0;
-    pub(super) const MAPPED: u8 = 1;
+    pub(in crate::structures::paging::mapper) const NOT_MAPPED: u8 = 0;
+    pub(in crate::structures::paging::mapper) const MAPPED: u8 = 1;
     /// the walk reached a present non-leaf entry whose frame is not a table of the pool, or a
     /// PML4E with bit 7: never in a well-formed state
-    pub(super) const MALFORMED: u8 = 2;
+    pub(in crate::structures::paging::mapper) const MALFORMED: u8 = 2;
 
     #[derive(Clone, Copy, PartialEq, Eq)]
-    pub(super) struct Walk {
+    pub(in crate::structures::paging::mapper) struct Walk {
         pub kind: u8,
         pub phys: u64,  // physical address the virtual address translates to
         pub size: u64,  // page size
@@ -278,12 +278,12 @@ mod verif_c01_pool {
     }
 
     /// What an MMU with CR3 = frame of table 0 does with virtual address `v`.
-    pub(super) fn hw_walk(pool: &Pool, v: u64) -> Walk {
+    pub(in crate::structures::paging::mapper) fn hw_walk(pool: &Pool, v: u64) -> Walk {
         hw_walk_ix(pool, &idx_of(v), v)
     }
     /// the same walk with the four indices given separately (so that concrete indices stay
     /// concrete for CBMC when only the page offset of `v` is symbolic); `ix` must be `idx_of(v)`
-    pub(super) fn hw_walk_ix(pool: &Pool, ix: &Idx, v: u64) -> Walk {
+    pub(in crate::structures::paging::mapper) fn hw_walk_ix(pool: &Pool, ix: &Idx, v: u64) -> Walk {
         let e4 = pool.rd(0, ix.0[0]);
         if e4 & P == 0 {
             return NM;
@@ -328,11 +328,11 @@ mod verif_c01_pool {
     }
 
     /// frame, size and leaf flags agree (the "mapping" of C02)
-    pub(super) fn same_mapping(a: &Walk, b: &Walk) -> bool {
+    pub(in crate::structures::paging::mapper) fn same_mapping(a: &Walk, b: &Walk) -> bool {
         a.kind == b.kind && (a.kind != MAPPED || (a.phys == b.phys && a.size == b.size && a.leaf == b.leaf))
     }
     /// parent rights of `after` are those of `before`, except that bits of `pf` may have been added
-    pub(super) fn rights_only_added(before: &Walk, after: &Walk, pf: u64) -> bool {
+    pub(in crate::structures::paging::mapper) fn rights_only_added(before: &Walk, after: &Walk, pf: u64) -> bool {
         if before.kind != MAPPED || after.kind != MAPPED {
             return true;
         }
@@ -341,50 +341,50 @@ mod verif_c01_pool {
 
     // ------------------------------------------------------------------ shapes and the pre-state
 
-    pub(super) const ABSENT: u8 = 0; // the entry is 0
-    pub(super) const HUGE: u8 = 1; // P | PS leaf (only at P3, P2)
-    pub(super) const LEAF: u8 = 2; // present P1 entry
-    pub(super) const ANY: u8 = 3; // 0 or a leaf of that level (used below a table entry whose content is irrelevant)
+    pub(in crate::structures::paging::mapper) const ABSENT: u8 = 0; // the entry is 0
+    pub(in crate::structures::paging::mapper) const HUGE: u8 = 1; // P | PS leaf (only at P3, P2)
+    pub(in crate::structures::paging::mapper) const LEAF: u8 = 2; // present P1 entry
+    pub(in crate::structures::paging::mapper) const ANY: u8 = 3; // 0 or a leaf of that level (used below a table entry whose content is irrelevant)
     /// 0, or ANY present word of the leaf class of that level: at P3 / P2 a word with P and PS whose
     /// address bits are arbitrary (also misaligned for the page size), at P1 any present word
-    pub(super) const SYM: u8 = 4;
+    pub(in crate::structures::paging::mapper) const SYM: u8 = 4;
 
     /// `d` table-pointing entries lead down from P4 (level j -> pool table j+1); the entry at
     /// level `d` (0 = P4 .. 3 = P1) is `end`.
     #[derive(Clone, Copy)]
-    pub(super) struct Shape {
+    pub(in crate::structures::paging::mapper) struct Shape {
         pub d: usize,
         pub end: u8,
     }
-    pub(super) const P4_ABSENT: Shape = Shape { d: 0, end: ABSENT };
-    pub(super) const P3_ABSENT: Shape = Shape { d: 1, end: ABSENT };
-    pub(super) const P3_HUGE: Shape = Shape { d: 1, end: HUGE };
-    pub(super) const P3_TABLE: Shape = Shape { d: 2, end: ANY }; // for 1 GiB operations
-    pub(super) const P2_ABSENT: Shape = Shape { d: 2, end: ABSENT };
-    pub(super) const P2_HUGE: Shape = Shape { d: 2, end: HUGE };
-    pub(super) const P2_TABLE: Shape = Shape { d: 3, end: ANY }; // for 2 MiB operations
-    pub(super) const P1_ABSENT: Shape = Shape { d: 3, end: ABSENT };
-    pub(super) const P1_LEAF: Shape = Shape { d: 3, end: LEAF };
-    pub(super) const P3_SYM: Shape = Shape { d: 1, end: SYM };
-    pub(super) const P2_SYM: Shape = Shape { d: 2, end: SYM };
-    pub(super) const P1_SYM: Shape = Shape { d: 3, end: SYM };
+    pub(in crate::structures::paging::mapper) const P4_ABSENT: Shape = Shape { d: 0, end: ABSENT };
+    pub(in crate::structures::paging::mapper) const P3_ABSENT: Shape = Shape { d: 1, end: ABSENT };
+    pub(in crate::structures::paging::mapper) const P3_HUGE: Shape = Shape { d: 1, end: HUGE };
+    pub(in crate::structures::paging::mapper) const P3_TABLE: Shape = Shape { d: 2, end: ANY }; // for 1 GiB operations
+    pub(in crate::structures::paging::mapper) const P2_ABSENT: Shape = Shape { d: 2, end: ABSENT };
+    pub(in crate::structures::paging::mapper) const P2_HUGE: Shape = Shape { d: 2, end: HUGE };
+    pub(in crate::structures::paging::mapper) const P2_TABLE: Shape = Shape { d: 3, end: ANY }; // for 2 MiB operations
+    pub(in crate::structures::paging::mapper) const P1_ABSENT: Shape = Shape { d: 3, end: ABSENT };
+    pub(in crate::structures::paging::mapper) const P1_LEAF: Shape = Shape { d: 3, end: LEAF };
+    pub(in crate::structures::paging::mapper) const P3_SYM: Shape = Shape { d: 1, end: SYM };
+    pub(in crate::structures::paging::mapper) const P2_SYM: Shape = Shape { d: 2, end: SYM };
+    pub(in crate::structures::paging::mapper) const P1_SYM: Shape = Shape { d: 3, end: SYM };
 
     /// symbolic word that points to pool table `k`: P, not PS, address = f[k], other bits free
-    pub(super) fn any_table_word(pool: &Pool, k: usize) -> u64 {
+    pub(in crate::structures::paging::mapper) fn any_table_word(pool: &Pool, k: usize) -> u64 {
         let w: u64 = kani::any();
         kani::assume(w & P != 0 && w & PS == 0 && w & ADDR == pool.f[k]);
         w
     }
     /// symbolic huge leaf at `level` (1 = P3: 1 GiB, 2 = P2: 2 MiB): P, PS, aligned frame
     /// (address bits below the page size zero), all bits of the flag domain free
-    pub(super) fn any_huge_word(level: usize) -> u64 {
+    pub(in crate::structures::paging::mapper) fn any_huge_word(level: usize) -> u64 {
         let w: u64 = kani::any();
         let reserved = if level == 1 { ADDR & !ADDR_1G } else { ADDR & !ADDR_2M };
         kani::assume(w & P != 0 && w & PS != 0 && w & reserved == 0);
         w
     }
     /// symbolic present P1 entry: any frame, any flags (bit 7 is PAT there)
-    pub(super) fn any_leaf_word() -> u64 {
+    pub(in crate::structures::paging::mapper) fn any_leaf_word() -> u64 {
         let w: u64 = kani::any();
         kani::assume(w & P != 0);
         w
@@ -414,11 +414,11 @@ mod verif_c01_pool {
     /// words of the target path in the pre-state: e[j] is the entry at level j (table j, slot ix[j])
     /// for j <= d; 0 beyond
     #[derive(Clone, Copy)]
-    pub(super) struct Pre {
+    pub(in crate::structures::paging::mapper) struct Pre {
         pub e: [u64; 4],
     }
 
-    pub(super) fn build_path(pool: &Pool, ix: &Idx, sh: Shape) -> Pre {
+    pub(in crate::structures::paging::mapper) fn build_path(pool: &Pool, ix: &Idx, sh: Shape) -> Pre {
         let mut e = [0u64; 4];
         let mut j = 0;
         while j < 4 {
@@ -438,7 +438,7 @@ mod verif_c01_pool {
     /// leaf of that level (huge at P3 / P2, present entry at P1). They give the probe address
     /// something to find and expose stray writes to a neighbour. (Table-pointing background words
     /// would make two slots share a table; the hierarchy is kept a tree.)
-    pub(super) fn add_background(pool: &Pool, ix: &Idx) -> (usize, usize, u64) {
+    pub(in crate::structures::paging::mapper) fn add_background(pool: &Pool, ix: &Idx) -> (usize, usize, u64) {
         let mut k = 1;
         while k <= 3 {
             let s = (ix.0[k] + 1) % 512;
@@ -450,7 +450,7 @@ mod verif_c01_pool {
 
     /// symbolic old data in each frame the allocator may hand out: in the slots the call may write
     /// and in their neighbours
-    pub(super) fn add_garbage(pool: &Pool, ix: &Idx) {
+    pub(in crate::structures::paging::mapper) fn add_garbage(pool: &Pool, ix: &Idx) {
         let mut k = 4;
         while k <= 6 {
             let mut l = 1;
@@ -465,8 +465,10 @@ mod verif_c01_pool {
 
     // ------------------------------------------------------------------ ghost: allocator and zero()
 
-    pub(super) struct Ghost {
+    pub(in crate::structures::paging::mapper) struct Ghost {
         pub ptrs: [*const PageTable; NT],
+        /// the pool's frame addresses (for `mmu_resolve`)
+        pub f: [u64; NT],
         pub seq: u32,
         pub alloc_seq: [u32; 3],
         pub zero_seq: [u32; NT],
@@ -475,8 +477,9 @@ mod verif_c01_pool {
         /// number of frame_to_pointer requests for a frame outside the pool
         pub outside: u32,
     }
-    pub(super) static mut GHOST: Ghost = Ghost {
+    pub(in crate::structures::paging::mapper) static mut GHOST: Ghost = Ghost {
         ptrs: [core::ptr::null(); NT],
+        f: [0; NT],
         seq: 0,
         alloc_seq: [0; 3],
         zero_seq: [0; NT],
@@ -485,20 +488,21 @@ mod verif_c01_pool {
         outside: 0,
     };
     #[allow(static_mut_refs)]
-    pub(super) fn ghost() -> &'static mut Ghost {
+    pub(in crate::structures::paging::mapper) fn ghost() -> &'static mut Ghost {
         unsafe { &mut *core::ptr::addr_of_mut!(GHOST) }
     }
-    pub(super) fn ghost_reset(pool: &Pool) {
+    pub(in crate::structures::paging::mapper) fn ghost_reset(pool: &Pool) {
         let g = ghost();
         let mut k = 0;
         while k < NT {
             g.ptrs[k] = pool.p[k] as *const PageTable;
+            g.f[k] = pool.f[k];
             k += 1;
         }
     }
 
     /// Contract of PageTable::zero (see header) + a record of which table it ran on and when.
-    pub(super) fn zero_stub(t: &mut PageTable) {
+    pub(in crate::structures::paging::mapper) fn zero_stub(t: &mut PageTable) {
         let g = ghost();
         g.seq += 1;
         let tp = t as *const PageTable;
@@ -519,7 +523,7 @@ mod verif_c01_pool {
     }
 
     /// The n-th request is answered with pool frame 4+n if `ok[n]`, with None otherwise.
-    pub(super) struct SchedAlloc {
+    pub(in crate::structures::paging::mapper) struct SchedAlloc {
         pub frames: [u64; 3],
         pub ok: [bool; 3],
         pub calls: usize,
@@ -540,7 +544,7 @@ mod verif_c01_pool {
             }
         }
     }
-    pub(super) fn any_sched(pool: &Pool) -> SchedAlloc {
+    pub(in crate::structures::paging::mapper) fn any_sched(pool: &Pool) -> SchedAlloc {
         SchedAlloc { frames: [pool.f[4], pool.f[5], pool.f[6]], ok: kani::any(), calls: 0 }
     }
 
@@ -550,7 +554,7 @@ mod verif_c01_pool {
     /// requested parent flags may be added"); tables in `zeroed` must be all zero except for the
     /// listed slots; every other word of every table must be unchanged.
     #[derive(Clone, Copy)]
-    pub(super) struct Dict {
+    pub(in crate::structures::paging::mapper) struct Dict {
         pub n: usize,
         pub k: [usize; 5],
         pub s: [usize; 5],
@@ -587,7 +591,7 @@ mod verif_c01_pool {
     }
 
     /// a symbolic (table, slot) pair of the pool and the word it holds now
-    pub(super) fn any_slot(pool: &Pool) -> (usize, usize, u64) {
+    pub(in crate::structures::paging::mapper) fn any_slot(pool: &Pool) -> (usize, usize, u64) {
         let k: usize = kani::any();
         let s: usize = kani::any();
         kani::assume(k < NT && s < 512);
@@ -596,7 +600,7 @@ mod verif_c01_pool {
 
     // ------------------------------------------------------------------ page sizes, arguments
 
-    pub(super) trait Sz: PageSize {
+    pub(in crate::structures::paging::mapper) trait Sz: PageSize {
         /// level index of the leaf entry (0 = P4 .. 3 = P1) = number of parent levels: 3 / 2 / 1
         const L: usize;
         const BYTES: u64;
@@ -625,28 +629,28 @@ mod verif_c01_pool {
     }
 
     /// leaf flags of the C01 quantifier: any bits of the flag domain, containing PRESENT
-    pub(super) fn any_leaf_flags() -> PageTableFlags {
+    pub(in crate::structures::paging::mapper) fn any_leaf_flags() -> PageTableFlags {
         let f = PageTableFlags::from_bits_truncate(kani::any::<u64>() & FLAG_DOMAIN);
         kani::assume(f.bits() & P != 0);
         f
     }
     /// parent flags of the C01 quantifier: containing PRESENT, not HUGE_PAGE
-    pub(super) fn any_parent_flags() -> PageTableFlags {
+    pub(in crate::structures::paging::mapper) fn any_parent_flags() -> PageTableFlags {
         let f = PageTableFlags::from_bits_truncate(kani::any::<u64>() & FLAG_DOMAIN);
         kani::assume(f.bits() & P != 0 && f.bits() & PS == 0);
         f
     }
-    pub(super) fn any_frame<S: Sz>() -> PhysFrame<S> {
+    pub(in crate::structures::paging::mapper) fn any_frame<S: Sz>() -> PhysFrame<S> {
         let a: u64 = kani::any();
         kani::assume(a & !S::LEAF_ADDR == 0);
         PhysFrame::from_start_address(PhysAddr::new(a)).unwrap()
     }
-    pub(super) fn page_of<S: Sz>(ix: &Idx) -> Page<S> {
+    pub(in crate::structures::paging::mapper) fn page_of<S: Sz>(ix: &Idx) -> Page<S> {
         Page::from_start_address(VirtAddr::new(va_of(ix, 0) & !(S::BYTES - 1))).unwrap()
     }
     /// an address inside the target page: the page's indices, lower indices and offset symbolic.
     /// Returns (address, its four indices) with the indices above the page size concrete.
-    pub(super) fn any_inside<S: Sz>(ix: &Idx) -> (u64, Idx) {
+    pub(in crate::structures::paging::mapper) fn any_inside<S: Sz>(ix: &Idx) -> (u64, Idx) {
         let mut jx = *ix;
         let mut l = S::L + 1;
         while l < 4 {
@@ -660,7 +664,7 @@ mod verif_c01_pool {
     }
 
     /// does the crate's TranslateResult for `v` say what the hardware walk says?
-    pub(super) fn translate_agrees(r: &TranslateResult, w: &Walk, v: u64) -> bool {
+    pub(in crate::structures::paging::mapper) fn translate_agrees(r: &TranslateResult, w: &Walk, v: u64) -> bool {
         match r {
             TranslateResult::NotMapped => w.kind == NOT_MAPPED,
             TranslateResult::InvalidFrameAddress(_) => false,
@@ -675,7 +679,7 @@ mod verif_c01_pool {
             }
         }
     }
-    pub(super) fn translate_addr_agrees(r: &Option<PhysAddr>, w: &Walk) -> bool {
+    pub(in crate::structures::paging::mapper) fn translate_addr_agrees(r: &Option<PhysAddr>, w: &Walk) -> bool {
         match r {
             None => w.kind == NOT_MAPPED,
             Some(pa) => w.kind == MAPPED && pa.as_u64() == w.phys,
@@ -684,12 +688,12 @@ mod verif_c01_pool {
 
     // ------------------------------------------------------------------ reaching an entry
 
-    pub(super) const REACHED: u8 = 0;
-    pub(super) const NOT_MAPPED_ABOVE: u8 = 1; // an entry above level n is absent
-    pub(super) const HUGE_ABOVE: u8 = 2; // an entry above level n is the leaf of a larger page
+    pub(in crate::structures::paging::mapper) const REACHED: u8 = 0;
+    pub(in crate::structures::paging::mapper) const NOT_MAPPED_ABOVE: u8 = 1; // an entry above level n is absent
+    pub(in crate::structures::paging::mapper) const HUGE_ABOVE: u8 = 2; // an entry above level n is the leaf of a larger page
 
     /// Follow the table-pointing entries of the target path down to level `n`.
-    pub(super) fn model_reach(sh: Shape, pre: &Pre, n: usize) -> u8 {
+    pub(in crate::structures::paging::mapper) fn model_reach(sh: Shape, pre: &Pre, n: usize) -> u8 {
         let mut lvl = 0;
         while lvl < n {
             if lvl >= sh.d {
@@ -701,12 +705,12 @@ mod verif_c01_pool {
         REACHED
     }
 
-    pub(super) const E_ABSENT: u8 = 0;
-    pub(super) const E_LEAF: u8 = 1; // a leaf entry of exactly this level's page size
-    pub(super) const E_TABLE: u8 = 2; // points to a lower table
-    pub(super) const E_MISALIGNED: u8 = 3; // P | PS with address bits below the page size set
+    pub(in crate::structures::paging::mapper) const E_ABSENT: u8 = 0;
+    pub(in crate::structures::paging::mapper) const E_LEAF: u8 = 1; // a leaf entry of exactly this level's page size
+    pub(in crate::structures::paging::mapper) const E_TABLE: u8 = 2; // points to a lower table
+    pub(in crate::structures::paging::mapper) const E_MISALIGNED: u8 = 3; // P | PS with address bits below the page size set
     /// what the entry at level `n` is (valid when model_reach == REACHED, n <= sh.d)
-    pub(super) fn entry_kind(sh: Shape, pre: &Pre, n: usize) -> u8 {
+    pub(in crate::structures::paging::mapper) fn entry_kind(sh: Shape, pre: &Pre, n: usize) -> u8 {
         if n < sh.d {
             E_TABLE
         } else if pre.e[n] == 0 {
@@ -719,7 +723,127 @@ mod verif_c01_pool {
     }
 
     /// Frame check of a call that must not change anything.
-    pub(super) fn unchanged(pre: u64, post: u64) -> bool {
+    pub(in crate::structures::paging::mapper) fn unchanged(pre: u64, post: u64) -> bool {
         pre == post
+    }
+
+    // ------------------------------------------------------------------ software MMU (RecursivePageTable)
+
+    /// What dereferencing virtual address `v` reaches, with CR3 = frame of pool table 0: the MMU
+    /// walk is `hw_walk`; the result is a pointer into the pool table that backs the physical
+    /// page, or - page fault, or a physical page that is not a page table of the hierarchy - the
+    /// NULL pointer, counted in `ghost().outside`. Used as the stub of `VirtAddr::as_mut_ptr` in
+    /// the RecursivePageTable harnesses (the four recursive-address-to-pointer sites of
+    /// recursive_page_table.rs are the only callers there).
+    pub(in crate::structures::paging::mapper) fn mmu_resolve(v: u64) -> *mut PageTable {
+        let g = ghost();
+        let pool = Pool {
+            f: g.f,
+            p: [
+                g.ptrs[0] as *mut PageTable,
+                g.ptrs[1] as *mut PageTable,
+                g.ptrs[2] as *mut PageTable,
+                g.ptrs[3] as *mut PageTable,
+                g.ptrs[4] as *mut PageTable,
+                g.ptrs[5] as *mut PageTable,
+                g.ptrs[6] as *mut PageTable,
+            ],
+        };
+        let w = hw_walk(&pool, v);
+        let k = if w.kind == MAPPED && w.phys & 0xfff == 0 { pool.lookup(w.phys) } else { NONE };
+        if k == NONE {
+            g.outside += 1;
+            core::ptr::null_mut()
+        } else {
+            pool.p[k]
+        }
+    }
+    pub(in crate::structures::paging::mapper) fn mmu_as_mut_ptr<T>(this: VirtAddr) -> *mut T {
+        mmu_resolve(this.as_u64()) as *mut T
+    }
+
+    // ------------------------------------------------------------------ model of map_to
+
+    pub(in crate::structures::paging::mapper) const M_OK: u8 = 0;
+    pub(in crate::structures::paging::mapper) const M_ERR_ALLOC: u8 = 1;
+    pub(in crate::structures::paging::mapper) const M_ERR_HUGE: u8 = 2;
+    pub(in crate::structures::paging::mapper) const M_ERR_ALREADY: u8 = 3;
+
+    pub(in crate::structures::paging::mapper) struct MapModel {
+        pub outcome: u8,
+        pub requests: usize,
+        pub created: usize,
+        pub dict: Dict,
+        /// slot of the huge leaf that stopped the call (M_ERR_HUGE), else NONE
+        pub huge_k: usize,
+        pub huge_s: usize,
+    }
+
+    /// What the documentation of `map_to_with_table_flags` dictates for this pre-state: walk the
+    /// `levels` parent entries from P4; an existing table entry gets the parent flags added; an
+    /// absent one is filled with a fresh zeroed frame (one allocator request each, failing the
+    /// call if refused) and `pf | forced` (`forced` = PRESENT | WRITABLE for RecursivePageTable,
+    /// whose documentation says so; 0 otherwise); a huge leaf on the way fails the call; then the
+    /// leaf slot must be unused and receives frame | flags.
+    pub(in crate::structures::paging::mapper) fn model_map_to(
+        pool: &Pool,
+        ix: &Idx,
+        sh: Shape,
+        pre: &Pre,
+        levels: usize,
+        leaf_word: u64,
+        pf: u64,
+        forced: u64,
+        ok: &[bool; 3],
+    ) -> MapModel {
+        let mut m = MapModel { outcome: M_OK, requests: 0, created: 0, dict: Dict::new(), huge_k: NONE, huge_s: 0 };
+        let mut cur = 0usize;
+        let mut lvl = 0usize;
+        while lvl < levels {
+            if lvl < sh.d {
+                // existing table entry: flags added, never replaced
+                m.dict.set(cur, ix.0[lvl], pre.e[lvl] | pf, 0);
+                cur = lvl + 1;
+            } else if lvl == sh.d && pre.e[lvl] != 0 {
+                // the leaf of a larger page
+                m.outcome = M_ERR_HUGE;
+                m.huge_k = cur;
+                m.huge_s = ix.0[lvl];
+                return m;
+            } else {
+                m.requests += 1;
+                if !ok[m.created] {
+                    m.outcome = M_ERR_ALLOC;
+                    return m;
+                }
+                let new = 4 + m.created;
+                m.dict.set(cur, ix.0[lvl], pool.f[new] | pf | forced, 0);
+                m.dict.zeroed[new] = true;
+                cur = new;
+                m.created += 1;
+            }
+            lvl += 1;
+        }
+        let old = if levels <= sh.d { pre.e[levels] } else { 0 };
+        if old != 0 {
+            m.outcome = M_ERR_ALREADY;
+            return m;
+        }
+        m.dict.set(cur, ix.0[levels], leaf_word, 0);
+        m
+    }
+
+    /// On an error an existing parent entry may or may not have received the parent flags
+    /// ("at most the requested parent flags may be added to existing parent-table entries").
+    pub(in crate::structures::paging::mapper) fn relax_for_error(d: &mut Dict, pre: &Pre, sh: Shape, pf: u64) {
+        let mut j = 0;
+        while j < 5 {
+            if j < d.n && j < sh.d {
+                // the first sh.d dictated slots are the existing table entries, in order
+                d.v[j] = pre.e[j];
+                d.may[j] = pf & !pre.e[j];
+            }
+            j += 1;
+        }
     }
 }
